@@ -63,6 +63,7 @@ def outcomeName : Outcome → String
   | .internalError => "internalError"
   | .forbidden => "forbidden"
   | .transportRefused => "transportRefused"
+  | .upstreamRefused => "upstreamRefused"
   | .forwarded _ _ => "forwarded"
 
 def identityPart (h : Headers) : Headers := h.filter (fun e => isIdentityName e.1)
@@ -89,7 +90,7 @@ def doRun (a : Json) : Except String Json := do
   let expJ := match exp with
     | .answered s => J.obj [("kind", Json.str "answered"), ("status", J.nat s)]
     | .forward id => J.obj [("kind", Json.str "forward"), ("id", encodeIdentity id),
-        ("keysLower", J.bool (extraKeysLower id)), ("trimmed", J.bool (valuesTrimmed id))]
+        ("keysLower", J.bool (extraKeysLower id)), ("carried", J.bool (valuesCarried upgrade id))]
   let judgeImpl ← match J.optObj a "observed" with
     | none => pure Json.null
     | some o => do
